@@ -867,6 +867,10 @@ pub struct World {
     pub pending_maybe: BTreeSet<Dep>,
     /// keys that have been present in the cache at some point of this history
     pub ever_cached: BTreeSet<Key>,
+    /// per asset: entries whose notification was already pending when the asset was loaded (the change
+    /// preceded the load: the load saw it, so it creates no obligation for this asset -- a reload is
+    /// allowed, not required)
+    pub notified_before_load: BTreeMap<Key, BTreeSet<Dep>>,
     pub pending: BTreeSet<Dep>,
     /// entries whose value must never change: key -> value text (get_or_insert, non-reloadable, no reloader)
     pub pinned: BTreeMap<Key, String>,
@@ -1003,6 +1007,7 @@ impl World {
             present: BTreeSet::new(),
             pending_maybe: BTreeSet::new(),
             ever_cached: BTreeSet::new(),
+            notified_before_load: BTreeMap::new(),
             pending: BTreeSet::new(),
             pinned: BTreeMap::new(),
             viol: vec![],
@@ -1097,6 +1102,17 @@ impl World {
         f(&v)
     }
 
+    /// a fresh load into the cache (not a reload, not a load_owned next to a cached entry)
+    fn mark_fresh_load(&mut self, key: &Key) {
+        let deps = self.graph.get(key).cloned().unwrap_or_default();
+        let old: BTreeSet<Dep> = deps.into_iter().filter(|d| self.pending.contains(d) || self.pending_maybe.contains(d)).collect();
+        if old.is_empty() {
+            self.notified_before_load.remove(key);
+        } else {
+            self.notified_before_load.insert(key.clone(), old);
+        }
+    }
+
     fn register(&mut self, key: Key, deps: BTreeSet<Dep>) {
         for d in &deps {
             self.known_entries.insert(d.clone());
@@ -1114,7 +1130,8 @@ impl World {
         for k in self.universe() {
             if k.0.reloadable() && !self.graph.contains_key(&k) && !self.pinned.contains_key(&k) && self.peek(&k).is_some() {
                 let (_, deps) = self.with_view(None, |v| Eval::default().fresh(v, &k, false));
-                self.register(k, deps);
+                self.register(k.clone(), deps);
+                self.mark_fresh_load(&k);
             }
         }
     }
@@ -1138,7 +1155,8 @@ impl World {
         };
         let mut s: BTreeSet<Key> = BTreeSet::new();
         for (k, deps) in &self.graph {
-            if all(k, deps).iter().any(|d| self.pending.contains(d) || (may && self.pending_maybe.contains(d))) {
+            let before = self.notified_before_load.get(k);
+            if all(k, deps).iter().any(|d| (self.pending.contains(d) && (may || !before.map_or(false, |b| b.contains(d)))) || (may && self.pending_maybe.contains(d))) {
                 s.insert(k.clone());
             }
         }
@@ -1168,6 +1186,7 @@ impl World {
     fn judge_pass(&mut self, before: &BTreeMap<Key, (String, u64)>, reads_before: usize, watch: &BTreeMap<Key, (bool, bool)>) {
         let aff = self.affected();
         let aff_may = self.affected_with(true);
+        self.notified_before_load.clear();
         self.pending.clear();
         self.pending_maybe.clear();
         self.passes += 1;
@@ -1447,10 +1466,17 @@ impl World {
                     }
                     if self.hot && ty.reloadable() && pred.is_ok() {
                         self.register(key.clone(), deps);
+                        if !was_cached && !owned {
+                            self.mark_fresh_load(&key);
+                        }
                     }
                     if self.hot {
                         for (k, d) in regs {
-                            self.register(k, d);
+                            let fresh = self.peek(&k).is_some() && !self.graph.contains_key(&k);
+                            self.register(k.clone(), d);
+                            if fresh {
+                                self.mark_fresh_load(&k);
+                            }
                         }
                     }
                     if !owned && pred.is_ok() && (!ty.reloadable() || !self.hot) {
